@@ -13,7 +13,7 @@ DW_TAG = dict(array_type=0x01, class_type=0x02, entry_point=0x03, enumeration_ty
               structure_type=0x13, subroutine_type=0x15, typedef=0x16, union_type=0x17, unspecified_parameters=0x18, variant=0x19,
               common_block=0x1a, inheritance=0x1c, inlined_subroutine=0x1d, module=0x1e, subrange_type=0x21, base_type=0x24, const_type=0x26,
               enumerator=0x28, namespace=0x39, subprogram=0x2e, template_type_parameter=0x2f, template_value_parameter=0x30, variable=0x34,
-              volatile_type=0x35, restrict_type=0x37, partial_unit=0x3c, imported_unit=0x3d, unspecified_type=0x3b)
+              volatile_type=0x35, restrict_type=0x37, partial_unit=0x3c, imported_unit=0x3d, unspecified_type=0x3b, type_unit=0x41, skeleton_unit=0x4a)
 DW_AT = dict(sibling=0x01, location=0x02, name=0x03, ordering=0x09, byte_size=0x0b, bit_size=0x0d, stmt_list=0x10, low_pc=0x11, high_pc=0x12,
              language=0x13, discr_value=0x16, visibility=0x17, import_=0x18, string_length=0x19, comp_dir=0x1b, const_value=0x1c,
              containing_type=0x1d, default_value=0x1e, inline=0x20, is_optional=0x21, lower_bound=0x22, producer=0x25, prototyped=0x27,
@@ -333,14 +333,28 @@ class Writer:
         return b""   # no operands
 
     # ------------------------------------------------------------------ layout
+    def unit_type(self, u):
+        if u.unit_type is not None:
+            return u.unit_type
+        tag = u.root.tag if u.root is not None else None
+        return {DW_TAG["partial_unit"]: 3, DW_TAG["type_unit"]: 2, DW_TAG["skeleton_unit"]: 4}.get(tag, 1)
+
     def unit_header(self, u, length):
         if u.version >= 5:
-            ut = u.unit_type if u.unit_type is not None else (3 if (u.root is not None and u.root.tag == DW_TAG["partial_unit"]) else 1)
-            return self.p("IHBBI", length, u.version, ut, u.addr_size, u.abbrev_offset)
+            ut = self.unit_type(u)
+            h = self.p("IHBBI", length, u.version, ut, u.addr_size, u.abbrev_offset)
+            if ut in (2, 6):        # type units: signature + offset of the type's DIE within the unit (here: the root)
+                h += self.p("QI", 0x1122334455667788 ^ (u.offset or 0), 12 + 12)
+            elif ut in (4, 5):      # skeleton / split compile: dwo id
+                h += self.p("Q", 0x0102030405060708 ^ (u.offset or 0))
+            return h
         return self.p("IHIB", length, u.version, u.abbrev_offset, u.addr_size)
 
     def header_size(self, u):
-        return 12 if u.version >= 5 else 11
+        if u.version >= 5:
+            ut = self.unit_type(u)
+            return 12 + (12 if ut in (2, 6) else 8 if ut in (4, 5) else 0)
+        return 11
 
     def die_bytes(self, u, d, resolve):
         out = bytearray(uleb(d._abbrev))
